@@ -2460,7 +2460,7 @@ func runC16(c *core.Ctx) {
 
 	lap("corpus histories")
 	// ---- random histories
-	nh := c.N(260, 2000)
+	nh := c.N(400, 2000)
 	for i := 0; i < nh; i++ {
 		cs := c16GenHist(rng, pool, 40)
 		bucket := "held/rows"
